@@ -23,7 +23,7 @@ claim('C19', 'exploration',
 claim('C04', 'exploration',
       'Random API histories (40-120 calls, 1-3 CIFs, colliding name pools in case / NFC / NFD / reordered-mark variants, '
       'invalid names, NULL and duplicate categories, empty and foreign-item packets, iterator edits with read-only calls '
-      'and refused iterator requests made meanwhile, parsing into an existing CIF, stale loop and container handles) executed in lock-step with an executable model of the documented data model; '
+      'and refused iterator requests made meanwhile, parsing into an existing CIF - also text that repeats a data name the CIF already holds -, stale loop and container handles) executed in lock-step with an executable model of the documented data model; '
       'result codes must lie in the model\'s acceptable set, every query result must equal the model\'s, and full dumps '
       '(query API only) are compared at checkpoints, after destroy / prune / iterator / parse steps and for every CIF at '
       'the end, which also shows cross-CIF interference.',
@@ -72,7 +72,7 @@ claim('C01', 'exploration',
       'Documents written by an independent, specification-derived CIF writer from an abstract content (blocks, one level '
       'of save frames, scalars, loops, nested lists / tables, all permitted Unicode classes) in randomly drawn layouts '
       '(white space / comment runs, keyword case, every admissible delimiter per value, folded / prefixed text fields, '
-      'tokens pushed to the line-length limit); enumerated families cover every ordered pair of 16 presentations x 4 '
+      'tokens pushed to the line-length limit, version comments padded with blanks to 2020-2048 characters with and without a signature); enumerated families cover every ordered pair of 16 presentations x 4 '
       'contexts x separators, every ASCII character at every lexical position (CIF 2.0 and 1.1) and text-field protocol '
       'corner texts; 270 kB documents whose leading comment slides short items of every presentation across the offsets '
       'at which the scan buffer fills up and is compacted.  The parse must report no error, return CIF_OK and dump to '
@@ -146,7 +146,7 @@ claim('C12', 'exploration',
       'header, loop without values, unterminated quotes / text / triple quotes, missing white space, stray and missing '
       'delimiters, missing / null / unquoted / text-block keys, reserved words in mixed case, unterminated / unexpected / '
       'disallowed / nested save frames, over-length lines in every context and at end of input, strings cut off by the end '
-      'of the input, key colons inside lists, disallowed characters, '
+      'of the input, key colons inside lists, disallowed characters, table-entry defects repeated with a longer value token (same code sequence), '
       'unexpected and invalid bare values) x 8 positions x LF / CR LF (/ CR), plus 2047/2048-character controls: first '
       'reported code, its line interval, the return value after accepting every error, and the full recovered content '
       'are judged against a table written from the error-recovery documentation.',
@@ -161,7 +161,7 @@ claim('C02', 'exploration',
       '2046..2049, both quote kinds, triple-quote and text-terminator look-alikes, fold / prefix marker look-alikes, '
       'trailing blanks and backslashes, semicolon runs, supplementary characters at fold points, 2000..2047-character '
       'names and codes, and strings concatenated from the fragments the choice of delimiter and text-field protocol depends '
-      'on - are written with cif_write, byte-checked (version comment, UTF-8, every line <= 2048 code '
+      'on, and keyword look-alikes in every letter case for which the bare form is requested - are written with cif_write, byte-checked (version comment, UTF-8, every line <= 2048 code '
       'points) and re-parsed; the re-parse must report nothing and be equivalent to the original under exactly the '
       'tolerances of the statement.  Refusal is accepted only as CIF_DISALLOWED_VALUE for a table key without a quoted form.',
       'Equivalence ignores loop categories and compares names by normal form.  A key is only required to be writable when '
@@ -185,7 +185,7 @@ claim('C09', 'exploration',
       'singletons, ucasemap_utf8FoldCase) for every Unicode scalar value (exhaustive, 1 112 063 one-character strings), '
       '100 000 (thorough 2 000 000) base+mark / mark+mark / special-folding strings in NFC, NFD and as given '
       '(idempotence, equal results for canonically equivalent spellings, srclen prefixes); 10 000 (thorough 200 000) '
-      'create / lookup / duplicate triples on blocks, frames, items and packet items under spelling pairs whose '
+      'create / lookup / duplicate triples on blocks, frames, items, packet items, loop packets and packet-iterator updates under spelling pairs whose '
       'equivalence the oracle decides; table keys (NFC only, case kept, last spelling enumerated); and a validity sweep '
       'of every disallowed code-point class at first / middle / last position plus the 2048 / 2043 length boundaries.',
       'ICU is trusted (Unicode 15, one library reached through two different APIs).  C1 controls in names are not judged.',
